@@ -427,7 +427,13 @@ func fail(clause, format string, a ...any) verdict {
 // checkValid applies the statement to a source the parser accepts.  mustComments are the texts of
 // comments that have to survive (generator knowledge); for arbitrary sources pass nil.
 // It returns the formatted text for histograms.
-func checkValid(src string, origNorm string, mustComments []string) (verdict, string) {
+//
+// exactTokens: the source holds none of the constructs the formatter drops on purpose (generator
+// knowledge), so "only whitespace and comment placement may differ" means that the sequence of
+// non-comment tokens is the same; otherwise the formatted tokens must be a subsequence of the
+// source's (the formatter may drop, never add or alter).  This comparison does not go through the
+// parser: information the parser loses on both sides the same way is still noticed.
+func checkValid(src string, origNorm string, mustComments []string, exactTokens bool) (verdict, string) {
 	slow := false
 	f1 := runFormat(src)
 	switch {
@@ -459,6 +465,14 @@ func checkValid(src string, origNorm string, mustComments []string) (verdict, st
 		if p2.out != origNorm {
 			return fail("parses to the same API description", "API description changed by formatting\n--- original AST (normal form)\n%s--- AST of formatted text\n%s%s",
 				origNorm, p2.out, firstDiff(origNorm, p2.out)), formatted
+		}
+	}
+	if t1, t2 := codeTokens(src), codeTokens(formatted); strings.TrimSpace(formatted) != "" || exactTokens {
+		if at, ok := subsequence(t2, t1); !ok {
+			return fail("only whitespace and comment placement may differ", "token %d of the formatted text (%q) is not in the source at that place: the formatter added or altered a token\n--- source tokens\n%q\n--- formatted tokens\n%q", at, t2[at], t1, t2), formatted
+		}
+		if exactTokens && len(t1) != len(t2) {
+			return fail("only whitespace and comment placement may differ", "the formatter dropped tokens although the source has no construct that is dropped on purpose\n--- source tokens\n%q\n--- formatted tokens\n%q", t1, t2), formatted
 		}
 	}
 	// comments: nothing invented or duplicated; statement-level comments survive
@@ -505,6 +519,33 @@ func checkValid(src string, origNorm string, mustComments []string) (verdict, st
 		}
 	}
 	return verdict{ok: true, slow: slow}, formatted
+}
+
+// codeTokens: the texts of all non-comment tokens, as the scanner sees them.
+func codeTokens(src string) []string {
+	var out []string
+	for _, tok := range scanTokens(src) {
+		if tok.Type != token.COMMENT && tok.Type != token.DOCUMENT {
+			out = append(out, tok.Text)
+		}
+	}
+	return out
+}
+
+// subsequence reports whether sub is a subsequence of all; if not, the index of the first element
+// of sub that cannot be matched.
+func subsequence(sub, all []string) (int, bool) {
+	j := 0
+	for i, s := range sub {
+		for j < len(all) && all[j] != s {
+			j++
+		}
+		if j == len(all) {
+			return i, false
+		}
+		j++
+	}
+	return 0, true
 }
 
 func firstDiff(a, b string) string {
